@@ -512,7 +512,7 @@ func init() {
 	}
 	register(&Prop{
 		ID:   "C06",
-		Rule: "histories of 1-30 overlay operations over 3 layer names and a pool of path-safe paths (indices 0-4, chains to depth 2): Put (leaf / list / container incl. leafless containers), Add (one source container sometimes added to two layers), Populate (root or path), interleaved with Lookup(layer), LookupAny, Search, Walk (complete and with an early stop), Merged(default / append) + Serialize; writes that would descend through an existing scalar or list are skipped (outside the property); values carry no nulls. After every write: LayerNames() and Layers() vs the Coq model; reads vs the model; Go side: per-layer plain reference, first-write order, first-hit, fold of the reference merge, Layers() snapshots re-read after all later writes, OverlayDocs(ov,ov) empty. Non-trivial: >= 2 layers written. Distinct by Gallina term. After every write the slice returned by LayerNames() is reordered and overwritten by the caller. A quarter of the Populate steps also populate, on an overlay of its own, a map whose lists hold null items.",
+		Rule: "histories of 1-30 overlay operations over 3 layer names and a pool of path-safe paths (indices 0-4, chains to depth 2): Put (leaf / list / container incl. leafless containers), Add (one source container sometimes added to two layers), Populate (root or path), interleaved with Lookup(layer), LookupAny, Search, Walk (complete and with an early stop), Merged(default / append) + Serialize; writes that would descend through an existing scalar or list are skipped (outside the property); values carry no nulls. After every write: LayerNames() and Layers() vs the Coq model; reads vs the model; Go side: per-layer plain reference, first-write order, first-hit, fold of the reference merge, Layers() snapshots re-read after all later writes, OverlayDocs(ov,ov) empty. Non-trivial: >= 2 layers written. Distinct by Gallina term. After every write the slice returned by LayerNames() is reordered and overwritten by the caller. A quarter of the Populate steps also populate, on an overlay of its own, a map whose lists hold null items. The separate overlay also gets a container Put at the root path.",
 		Corpus: func() []Case {
 			s := shared()
 			return []Case{
